@@ -41,6 +41,8 @@ def do_correspondence(ctx, model, harness, cases, per_case, label, extra_h=(), d
 
 def do_search(ctx, harness, jobs, label, classify=None):
     findings, agg = X.search(harness, jobs, ctx['wd'])
+    if jobs and len(ctx['cov']['samples']) < 3:
+        ctx['cov']['samples'].append({'search_job': X.case_text(jobs[0][0], jobs[0][1]), 'strategy': jobs[0][2], 'executions_budget': jobs[0][3]})
     s = ctx['cov'].setdefault('search', {})
     s[label] = agg
     ctx['cov']['evaluations'] = ctx['cov'].get('evaluations', 0) + agg['executions']
